@@ -33,7 +33,26 @@ pub fn cfg_sexp(cfg: &Cfg) -> String {
     format!("(cfg {} {d} {})", quote(&cfg.name.to_case(Case::Pascal)), cfg.examples)
 }
 
+/// `LNV_ONLY_DOC=<file>` (with optional `LNV_ONLY_CFG=<json {name, derives, examples}>`): the run consists of that one document (replay of a recorded case)
+pub fn only_case() -> Option<EmitCase> {
+    let path = std::env::var("LNV_ONLY_DOC").ok()?;
+    let text = std::fs::read_to_string(&path).ok()?;
+    let doc: Value = serde_json::from_str(&text).or_else(|_| serde_yaml::from_str(&text)).ok()?;
+    let mut cfg = Cfg::new("Replay");
+    if let Ok(c) = std::env::var("LNV_ONLY_CFG") {
+        if let Ok(v) = serde_json::from_str::<Value>(&c) {
+            if let Some(n) = v["name"].as_str() { cfg.name = n.to_string(); }
+            if let Some(d) = v["derives"].as_array() { cfg.derives = d.iter().filter_map(|x| x.as_str().map(|s| s.to_string())).collect(); }
+            if let Some(e) = v["examples"].as_bool() { cfg.examples = e; }
+        }
+    }
+    let mut features = vec!["replay".to_string()];
+    if std::env::var("LNV_ONLY_REGEN").is_ok() { features.push("regenerated_with_marker".to_string()); }
+    Some(EmitCase { label: format!("(replay {})", quote(&path)), doc, cfg, features })
+}
+
 pub fn gen_cases(prop: &str, tier: &str, seed: u64, rep: &mut Report) -> Vec<EmitCase> {
+    if let Some(c) = only_case() { return vec![c]; }
     let thorough = tier == "thorough";
     let mut cases = vec![];
     let mut add_file = |f: &str, cfg: Cfg, cases: &mut Vec<EmitCase>| {
@@ -111,7 +130,7 @@ pub fn run_real(c: &EmitCase) -> Result<Emitted, String> {
     Ok(Emitted { hir: h, tree })
 }
 
-fn case_text(c: &EmitCase) -> String { format!("(case {} (doc {}))", c.label, quote(&serde_json::to_string(&c.doc).unwrap_or_default().chars().take(6000).collect::<String>())) }
+fn case_text(c: &EmitCase) -> String { format!("(case {} (doc {}))", c.label, quote(&serde_json::to_string(&c.doc).unwrap_or_default().chars().take(60000).collect::<String>())) }
 
 /// trailing spaces at line ends of doc strings are removed by prettyplease; compare modulo that
 fn norm_docs(s: &Sexp) -> Sexp {
